@@ -310,6 +310,25 @@ impl Check for C12 {
                 });
             }
             Chunk::Copied(i) => {
+                if i == 0 {
+                    // operators whose constant operand becomes a width: SIGNEXTEND (either operand order), BYTE, and shifts
+                    // of call data, each with operands around and far beyond 256, stored to slot 0
+                    for c in [0u64, 1, 7, 8, 31, 32, 128, 255, 256, 257, 264, 300, 512, 4096, 65_535] {
+                        for (name, body) in [
+                            ("signextend(c, x)", vec![p(0), o(op::CALLDATALOAD), p(c), o(0x0b)]),
+                            ("signextend(x, c)", vec![p(c), p(0), o(op::CALLDATALOAD), o(0x0b)]),
+                            ("byte(c, x)", vec![p(0), o(op::CALLDATALOAD), p(c), o(0x1a)]),
+                            ("x >> c", vec![p(0), o(op::CALLDATALOAD), p(c), o(op::SHR)]),
+                            ("x << c", vec![p(0), o(op::CALLDATALOAD), p(c), o(op::SHL)]),
+                            ("sar(c, x)", vec![p(0), o(op::CALLDATALOAD), p(c), o(0x1d)]),
+                        ] {
+                            let mut t: Vec<Tok> = body;
+                            t.extend([p(0), o(op::SSTORE)]);
+                            let code = assemble(&t);
+                            run(ctx, "width_operands", &code, &|| format!("{name} with c = {c} stored to slot 0"));
+                        }
+                    }
+                }
                 for (desc, code) in copied_programs(COPY_OPS[i]) {
                     run(ctx, "copied_words", &code, &|| desc.clone());
                 }
@@ -363,7 +382,7 @@ impl Check for C12 {
              248..255 and the full word, SHR/SHL by 0, 8, 96, 248, 250, 255, 256, 300, 2^64-1, division / multiplication by 2^8, \
              2^96, 2^248, 2^255, OR, DUP1, SWAP1, SSTORE to slot 0 / 1) and {} pipeline templates x B x B (|B| = {}), and the nested sub-word family (a field of 8..160 bits taken out of a field of 8..248 bits of slot 0, \
              outer shift 0..255, inner shift 0..outer width, read or stored), the typed-field family (a field of 8..248 bits at any of 38 positions used as an address, a call target, a boolean or a signed number), and the copied-words family (CALLDATACOPY / CODECOPY / RETURNDATACOPY / EXTCODECOPY of 0..100, 127..129, 160, 393..395, 1000 bytes, \
-             each copied word loaded and stored to its own slot): on every returned \
+             each copied word loaded and stored to its own slot), and SIGNEXTEND / BYTE / SHR / SHL / SAR of call data with constant operands 0..65 535: on every returned \
              layout the (slot, offset) sequence is non-decreasing, every offset is < 256 and offset + width <= 256 for every type \
              with a known width. non-trivial = layout with an entry at a non-zero bit offset; distinct by program",
             if tier.thorough() { 5 } else { 4 },
